@@ -446,6 +446,7 @@ pub fn run(args: &Args, r: &mut Report) {
                     })
                     .collect();
                 c.detach_last_progress = rng.chance(1, 3);
+                c.detach_all_progress = rng.chance(1, 5);
             }
         }
         let l = add_reboot_waits(&mut case.script, &mut rng, false, &apps);
